@@ -1,4 +1,5 @@
-//! Supervisor for the fault-enumeration properties (C14, C19): the exploration runs in a child
+//! Supervisor for the fault-enumeration properties (C14, C19) and the cron checks (C16, C17, whose
+//! subject can loop for a very long time on an unsatisfiable schedule): the exploration runs in a child
 //! process; if the child dies abnormally (abort, stack overflow, allocation failure) or exceeds
 //! its wall budget, the chunks the worker threads were executing are re-run one case at a time in
 //! trace mode to identify the offending case, which is reported as a violation.
@@ -79,7 +80,18 @@ pub fn supervise(ctx: &Ctx, args: &[String]) -> i32 {
     }
     let mut machinery = vec![];
     if classes.is_empty() {
-        machinery.push(format!("child ended abnormally ({}) but no chunk reproduced it in trace mode", why));
+        // killed by the wall budget or by a signal: the subject hung or aborted but the case could not be
+        // located (e.g. inside the stateright search, which has no trace mode). Still a verdict.
+        let by_signal_or_timeout = status.map_or(true, |s| s.code().is_none());
+        if by_signal_or_timeout {
+            let case = json!({"kind": "unlocated", "why": why});
+            let path = format!("{}/{}-{}-process-abort-unlocated.json", ctx.replay_dir, ctx.prop, PROFILE);
+            let body = json!({"property": ctx.prop, "profile": PROFILE, "op": "process", "class": "abort-or-hang-not-located", "case": case, "expected": "the exploration terminates", "observed": why});
+            std::fs::write(&path, serde_json::to_string_pretty(&body).unwrap()).ok();
+            classes.push(json!({"op": "process", "class": "abort-or-hang-not-located", "count": 1, "examples": [{"replay": path, "case": case, "expected": "the exploration terminates", "observed": why}]}));
+        } else {
+            machinery.push(format!("child ended abnormally ({}) and no chunk reproduced it in trace mode", why));
+        }
     }
     let result = json!({
         "property": ctx.prop, "tier": if ctx.thorough { "thorough" } else { "quick" }, "profile": PROFILE, "seed": ctx.seed,
